@@ -131,6 +131,9 @@ class WProxy:
     def __exit__(self, *a):
         self.close()
 
+    def __getattr__(self, name):            # fileno(), name, mode, ... of the wrapped file
+        return getattr(self._f, name)
+
     def __del__(self):
         try:
             self.close()
@@ -184,9 +187,14 @@ class RProxy:
     def __exit__(self, *a):
         self._f.close()
 
+    def __getattr__(self, name):
+        return getattr(self._f, name)
+
 
 def v_open(file, mode="r", *a, **kw):
     c = cls(file) if isinstance(file, (str, os.PathLike)) else None
+    if c == "other":
+        return _open(file, mode, *a, **kw)          # lock files, logs, temporaries under other names: not part of the protocol that is stepped
     if c is not None and c != "dir" and "b" in mode and ("w" in mode or "a" in mode or "+" in mode or "x" in mode):
         token()
         try:
